@@ -10,7 +10,8 @@ LAWS = [I19, TY_laws]
 # public operations named by C01 (+ the constructors that take links= / vertices=)
 C01_OPS = ["TwoEndedLink.__init__", "TwoEndedLink.v1.setter", "TwoEndedLink.v2.setter", "Vertex.add_to_link",
            "Vertex.remove_from_link", "Link.add_vertex", "Link.unlink_from", "Link.__init__", "Vertex.__init__",
-           "Universe.__init__"]
+           "Universe.__init__", "explicit.link_from_to", "explicit.link_directed", "explicit.link_undirected",
+           "explicit.unlink"]
 C02_OPS = ["Universe.add_vertex", "Universe.remove_vertex", "Vertex.add_to_universe", "Vertex.remove_from_universe",
            "Vertex.__init__", "Universe.__init__"]
 C19_OPS = ["Universe.laws.setter", "UniverseLaws.applies_to.setter", "Universe.__init__"]
@@ -28,3 +29,102 @@ for _op in C02_OPS:
     REG.lemma(f"C02/I2-preserved-by/{_op}", props=("C02",))(_mk(_op, ASSOC + MEMB + LAWS, MEMB, "C02/I2"))
 for _op in C19_OPS:
     REG.lemma(f"C19/I19-preserved-by/{_op}", props=("C19",))(_mk(_op, ASSOC + MEMB + LAWS, LAWS, "C19/I19"))
+
+
+# ---------------------------------------------------------------------------------------------- C04: FORWARD / BACKWARD symmetry
+from .helpers import contrib, two_ended_links, FORWARD, BACKWARD, qual, NB  # noqa: E402
+import z3  # noqa: E402
+from pyvc import terms as T  # noqa: E402
+from pyvc.state import State  # noqa: E402
+from pyvc.engine import Path  # noqa: E402
+
+
+@REG.lemma("C04/forward-backward-pointwise", props=("C04",))
+def _(eng):
+    """for every link l: (l in links(v) and l contributes [w] to FORWARD neighbours of v)  <=>
+                         (l in links(w) and l contributes [v] to BACKWARD neighbours of w), without a filter.
+    The count statement of C04 follows by the Lean lemma count_flatMap_singleton_of_pointwise (ListLemmas.lean)."""
+    S = State("pre")
+    ct = eng.ct
+    p = Path()
+    p.st = S
+    v, w, l = z3.Consts("v w l", Ref)
+    u = z3.Int("unknown_handling")
+    for x in (v, w):
+        p.assume(ct.is_a(x, "Vertex"))
+        p.assume(x != NONE)
+    p.assume(l != NONE)
+    p.schemas += [I1_sym(S, ct), I1_nodup(S, ct), TY_links(S, ct), two_ended_links(S, ct, v), two_ended_links(S, ct, w)]
+    p.assume(z3.Implies(Mem(S.ends(l), v), z3.And(ct.is_a(l, "Link"))))
+    cf, bf = contrib(S, ct, l, v, z3.IntVal(FORWARD), u, NONE)
+    cb, bb = contrib(S, ct, l, w, z3.IntVal(BACKWARD), u, NONE)
+    lhs = z3.And(Mem(S.links(v), l), z3.Not(bf), cf == T.unit(w))
+    rhs = z3.And(Mem(S.links(w), l), z3.Not(bb), cb == T.unit(v))
+    eng.cur = None
+    eng.emit(p, "cover", "C04/fb/cover", z3.BoolVal(True), expect="sat")
+    eng.emit(p, "lemma", "C04/forward-backward-pointwise/=>", z3.Implies(lhs, rhs), meta={"clause": "FORWARD contribution implies BACKWARD contribution"})
+    eng.emit(p, "lemma", "C04/forward-backward-pointwise/<=", z3.Implies(rhs, lhs), meta={"clause": "BACKWARD contribution implies FORWARD contribution"})
+
+
+@REG.lemma("C09/find_links-neighbors-pointwise", props=("C09",))
+def _(eng):
+    """for every link l of a: l qualifies for find_links(a, b, ds, u, f') <=> l contributes [b] to neighbors(a, FORWARD if ds
+    else ANY, u, f) where f(l, w) = f'(l).  |find_links| = count b neighbors follows by the same Lean counting lemma."""
+    S = State("pre")
+    ct = eng.ct
+    p = Path()
+    p.st = S
+    a, b, l, f1, f2 = z3.Consts("a b l f1 f2", Ref)
+    u = z3.Int("unknown_handling")
+    ds = z3.Bool("direction_sensitive")
+    p.assume(ct.is_a(a, "Vertex"))
+    p.assume(a != NONE)
+    p.assume(l != NONE)
+    p.assume(Mem(S.links(a), l))
+    p.schemas += [I1_sym(S, ct), TY_links(S, ct), two_ended_links(S, ct, a)]
+    # the two filters agree: f2(l, other) is f1(l); both absent or both present
+    o = S.other(l, a)
+    p.assume((f1 == NONE) == (f2 == NONE))
+    p.assume(T.cb1(f1, l) == T.cb2(f2, l, o))
+    p.assume(T.cb1_raises(f1, l) == T.cb2_raises(f2, l, o))
+    member, bad1 = qual(S, ct, l, a, b, ds, u, f1)
+    d = z3.If(ds, z3.IntVal(0), z3.IntVal(1))
+    sq, bad2 = contrib(S, ct, l, a, d, u, f2)
+    eng.cur = None
+    eng.emit(p, "cover", "C09/pw/cover", z3.BoolVal(True), expect="sat")
+    eng.emit(p, "lemma", "C09/qualifies-iff-contributes-b", z3.Implies(z3.And(z3.Not(bad1), z3.Not(bad2)), member == (sq == T.unit(b))),
+             meta={"clause": "l in find_links(a,b) <=> l contributes [b] to neighbors(a)"})
+    eng.emit(p, "lemma", "C09/abnormal-agree", z3.Implies(o == b, bad1 == bad2),
+             meta={"clause": "for links joining a and b, find_links ends abnormally exactly when neighbors does"})
+
+
+@REG.lemma("C09/unlink-empties-find_links", props=("C09", "C03"))
+def _(eng):
+    """after unlink(a, b): no link of a joins b any more (so find_links(a, b, ...) is empty for every setting), and every
+    link joining another pair c, d is still attached to c with the same ends (so it is still found)."""
+    fi, c, p, args, spec = eng.entry_path("explicit.unlink")
+    ct = eng.ct
+    S = eng.pre
+    p.schemas += [I1_sym(S, ct), I1_nodup(S, ct), TY_links(S, ct)]
+    a, b = args["v1"].term, args["v2"].term
+    for oi, o in enumerate(spec.outcomes):
+        if not eng.feasible(p, o.cond):
+            continue
+        q = p.copy()
+        q.assume(o.cond)
+        eng.enter_outcome(q, o, S)
+        P = q.st
+        l = T.fresh("sk_l", Ref)
+        cc, dd = T.fresh("sk_c", Ref), T.fresh("sk_d", Ref)
+        eng.emit(q, "lemma", f"C09/unlink/{o.label}/no-link-of-a-joins-b",
+                 z3.Not(z3.And(Mem(P.links(a), l), P.other(l, a) == b)),
+                 meta={"clause": "after unlink(a,b) no link in a.links has b as its other end"})
+        q2 = q.copy()
+        q2.assume(ct.is_a(cc, "Vertex"))
+        q2.assume(cc != NONE)
+        q2.schemas.append(two_ended_links(S, ct, cc))
+        q2.assume(z3.Not(z3.Or(z3.And(cc == a, dd == b), z3.And(cc == b, dd == a))))
+        eng.emit(q2, "lemma", f"C09/unlink/{o.label}/other-pairs-untouched",
+                 z3.Implies(z3.And(Mem(S.links(cc), l), S.other(l, cc) == dd),
+                            z3.And(Mem(P.links(cc), l), P.ends(l) == S.ends(l))),
+                 meta={"clause": "links joining another pair are still attached with the same ends"})
